@@ -164,6 +164,8 @@ type recorder struct {
 	// HANDLER's context ends, which is counted in aborted and records no call.
 	slow    chan Call
 	aborted int
+	// publisher stage: what a flavour's main loop does with the key (eonKeyPublisher.Publish)
+	forward func(keyper.EonPublicKey)
 }
 
 var _ p2p.Messaging = (*recorder)(nil)
@@ -242,6 +244,12 @@ func (r *recorder) SendMessage(ctx context.Context, msg p2pmsg.Message, _ ...ret
 
 func (r *recorder) callback(ctx context.Context, pk keyper.EonPublicKey) error {
 	w := r.w
+	r.mu.Lock()
+	fwd := r.forward
+	r.mu.Unlock()
+	if fwd != nil {
+		defer fwd(pk)
+	}
 	return r.offer(ctx, Call{M: "cb", Num: w.absEonNum(pk.Eon), Act: w.absAct(pk.ActivationBlock), Cfg: w.absCfg(pk.KeyperConfigIndex),
 		Key: w.keyToken(pk.PublicKey), Wf: true})
 }
